@@ -148,6 +148,10 @@ def _diff_fields(exp, obs):
     else:
         for j, (e, o) in enumerate(zip(ea, oa), 1):
             for k in ("name", "type", "bytes", "sup", "supp"):
+                if k == "name" and e[k][0] == "-":                       # DC5 (diagnostic only)
+                    continue
+                if k == "bytes" and o[k][0] == "bytesnl" and o[k][1:] == e[k][1:]:   # DC8 (diagnostic only)
+                    continue
                 if e[k] != o[k]:
                     d.append(f"att{j}.{k}")
     return d or ["(accepted fields; see obs)"]
@@ -221,7 +225,6 @@ def run(ctx):
         for e in o["ev"]:
             ltraces.append({"id": f"L{i}:{e['a']}", "hdr": {"lines": it["lines"], "fin": it["fin"], "eol": it["eol"]}, "ev": [e]})
             lmeta.append((it, o, e))
-    lcfg = "SPECIFICATION TraceSpec\nCONSTRAINT TraceAccept\nCONSTANTS MaxLen = 6\n Deviations = {}\n"
     lcfg = "SPECIFICATION TraceSpec\nCONSTRAINT TraceAccept\nCONSTANTS MaxLen = 6\n Deviations = {}\n"
     f_brl = pool.submit(validate, "MboxTrace", lcfg, ltraces, scratch=ctx.scratch, parallel=6, min_chunk=300)
 
